@@ -20,7 +20,7 @@ fn run() -> io::Result<()> {
         Some(AscaCommand::Run { i_group, words, alias, compare, output }) => cli::run::run(i_group, words, alias, output, compare),
         Some(AscaCommand::Conv(conv)) => match conv {
             Conv::Asca { words, rules, alias, output } => cli::convert::from_asca(words, rules, alias, output),
-            Conv::Json { path, words, alias, rules }   => cli::convert::from_json(path, words, alias, rules),
+            Conv::Json { path, words, alias, rules }   => cli::convert::from_json(path, words, rules, alias),
             Conv::Tag  { path, tag, recurse, output }  => cli::convert::from_seq(path, tag, output, recurse),
         },
         // Some(AscaCommand::Mult { rules, words, compare, output }) => todo!(),
